@@ -387,8 +387,8 @@ func history(lic license.License, mqttMode bool, nClients, steps int, script []s
 	}
 	w.pending = make([][]mqtt.Message, nClients)
 
-	channels := []string{"a/", "a/b/", "b/a/", "a/a/", "b/b/", "a/b/c/", "b/", "x/x/y/", "y/", "a/+/", "a/#/", "+/b/", "#/", "a//b/", "a/b", "a b/", "", "a/?ttl=300", "a/b/?last=2", "a/b/?last=0", "a/?me=0", "a/b/c/?ttl=200&me=0", "presence/", "presence/a/", "a/presence/", "y/x/x/", "a/b/?last=2147483648", "a/?last=9223372036854775807", "a/b/?last=4294967296"}
-	staticChannels := []string{"a/", "a/b/", "b/a/", "a/a/", "b/b/", "a/b/c/", "b/", "x/x/y/", "y/", "a/b/?ttl=500", "a/?me=0", "a/b/c/?ttl=200&me=0", "a/?ttl=100", "a/b/?me=1", "a/b/?ttl=2592001", "b/?ttl=31536000", "a/?ttl=2592000", "a/?ttl=0", "a/b/?ttl=0&me=0", "presence/", "presence/a/", "a/presence/", "y/x/x/"}
+	channels := []string{"a/", "a/b/", "b/a/", "a/a/", "b/b/", "a/b/c/", "b/", "x/x/y/", "y/", "a/+/", "a/#/", "+/b/", "#/", "a//b/", "a/b", "a b/", "", "a/?ttl=300", "a/b/?last=2", "a/b/?last=0", "a/?me=0", "a/b/c/?ttl=200&me=0", "presence/", "presence/a/", "a/presence/", "y/x/x/", "a/b/?until=1600000000", "a/b/?from=1600000000&until=1600000100", "a/b/?last=010", "a/b/?last=0x10", "a/b/?last=08", "a/a/a/b/", "z/z/", "a/b/?last=2147483648", "a/?last=9223372036854775807", "a/b/?last=4294967296"}
+	staticChannels := []string{"a/", "a/b/", "b/a/", "a/a/", "b/b/", "a/b/c/", "b/", "x/x/y/", "y/", "a/b/?ttl=500", "a/?me=0", "a/b/c/?ttl=200&me=0", "a/?ttl=100", "a/b/?me=1", "a/b/?ttl=2592001", "b/?ttl=31536000", "a/?ttl=2592000", "a/?ttl=0", "a/b/?ttl=0&me=0", "presence/", "presence/a/", "a/presence/", "y/x/x/", "a/b/?ttl=0100", "a/b/?ttl=09", "a/b/?ttl=0x20", "a/a/a/b/", "z/z/"}
 	usernames := []string{"", "alice", "bob", "", "carol"}
 
 	var ops []string
@@ -879,6 +879,35 @@ func main() {
 		sc = append(sc, pubs...)
 		t, h := history(lics[v%3], false, 2, 0, sc)
 		sh.Add(t, h, "scenario/reconnect-noconnect-empty-retained-big-last", true)
+	}
+	// directed scenarios: three filters of one connection in one bookkeeping bucket, removed one by one
+	// and by the connection ending; a filter removed and subscribed again
+	for v, tr := range [][3]string{{"x/x/y/", "y/", "y/x/x/"}, {"a/b/", "b/a/", "a/a/a/b/"}, {"a/a/", "b/b/", "z/z/"}, {"y/", "y/x/x/", "x/x/y/"}} {
+		pubs := func() []scriptStep {
+			return []scriptStep{{ci: 1, x: 50, topic: tr[0]}, {ci: 1, x: 50, topic: tr[1]}, {ci: 1, x: 50, topic: tr[2]}, {ci: 1, x: 85, topic: tr[1]}}
+		}
+		sc := []scriptStep{{ci: 0}, {ci: 1}, {ci: 1, x: 85, topic: tr[1], pres: 1}, {ci: 0, x: 0, topic: tr[0]}, {ci: 0, x: 0, topic: tr[1]}, {ci: 0, x: 0, topic: tr[2]}}
+		sc = append(sc, pubs()...)
+		sc = append(sc, scriptStep{ci: 0, x: 30, topic: tr[1]})
+		sc = append(sc, pubs()...)
+		sc = append(sc, scriptStep{ci: 0, x: 0, topic: tr[1]}, scriptStep{ci: 0, x: 30, topic: tr[1]}, scriptStep{ci: 0, x: 0, topic: tr[1]})
+		sc = append(sc, pubs()...)
+		sc = append(sc, scriptStep{ci: 0, x: 99, how: v})
+		sc = append(sc, pubs()...)
+		t, h := history(lics[v%3], false, 2, 0, sc)
+		sh.Add(t, h, "scenario/three-filters-one-bucket", true)
+	}
+	// directed scenarios: a link name used, registered again for another channel and used again;
+	// subscriptions with a window but no 'last'; option values written with leading zeros
+	for v := 0; v < 3; v++ {
+		sc := []scriptStep{{ci: 0}, {ci: 1}, {ci: 1, x: 0, topic: "a/b/"}, {ci: 1, x: 0, topic: "a/b/c/"},
+			{ci: 0, x: 75, name: "l1", topic: "a/b/"}, {ci: 0, x: 50, name: "l1"}, {ci: 0, x: 75, name: "l1", topic: "a/b/c/?me=0"}, {ci: 0, x: 50, name: "l1"},
+			{ci: 0, x: 75, name: "l1", topic: "a/b/"}, {ci: 0, x: 50, name: "l1"},
+			{ci: 0, x: 50, topic: "a/b/?ttl=0100"}, {ci: 0, x: 50, topic: "a/b/?ttl=09"}, {ci: 0, x: 50, topic: "a/b/?ttl=600"},
+			{ci: 0, x: 0, topic: "a/b/?until=1600000000"}, {ci: 0, x: 30, topic: "a/b/"}, {ci: 0, x: 0, topic: "a/b/?from=1600000000&until=1600000100"}, {ci: 0, x: 30, topic: "a/b/"},
+			{ci: 0, x: 0, topic: "a/b/?last=010"}, {ci: 0, x: 30, topic: "a/b/"}, {ci: 0, x: 0, topic: "a/b/?last=08"}, {ci: 0, x: 83, topic: "a/b/?last=010"}}
+		t, h := history(lics[v%3], v == 2, 2, 0, sc)
+		sh.Add(t, h, "scenario/relinked-shortcut-window-without-last-leading-zeros", true)
 	}
 	// directed scenarios: one connection holds a broader and a narrower filter (parent channel, '+'
 	// level); watchers of both channels are told about every subscription and its end, in every order
